@@ -357,16 +357,28 @@ def stream_sql_and_e2e(ck, model_ok, tm=None):
 
 # ----------------------------------------------------------------------------- (b') filter conditions
 
-def stream_filter(ck, model_ok):
-    """`from t | filter E`: the WHERE path.  Expressions held by a transform (filter, join) are the ones the SQL back
+def stream_filter(ck, model_ok, mode="filter"):
+    """`from t | filter E` (mode "filter": the WHERE path) and `from t | join u (E)` (mode "join": the ON path; u has one
+    row, the columns of t are written t.a, t.b, t.c and printed so by the emitter: the qualifier is stripped before the
+    comparison, column naming is not C02's).  Expressions held by a transform (filter, join) are the ones the SQL back
     end takes from the pipeline AFTER the Normalizer (select / derive columns are translated from the declarations
     registered before it).  Per condition and dialect: model text vs the WHERE clause, byte for byte; RQ before /
     after the Normalizer vs the model (hook); and the rows kept by SQLite vs the rows where eval_doc is true."""
     rows = M.table_rows()
+    import re as _re
     cases = G.cond_cases(ck.rng, ck.n(120, 420))
     seen = set()
     cases = [t for t in cases if not (G.prql(t) in seen or seen.add(G.prql(t)))]
+    if mode == "join":
+        cases = cases[::2] if not ck.thorough else cases
     srcs = [G.prql(t) for t in cases]
+    if mode == "join":
+        wrap = lambda e: "from t | join u (%s)" % _re.sub(r"\b([abc])\b", r"t.\1", e)
+        pre, kindname = "SELECT t.*, u.* FROM t INNER JOIN u ON ", "Join"
+    else:
+        wrap = lambda e: "from t | filter (%s)" % e
+        pre, kindname = "SELECT * FROM t WHERE ", "Filter"
+    S_ = mode
     model = [None] * len(cases)
     if model_ok:
         try:
@@ -380,34 +392,37 @@ def stream_filter(ck, model_ok):
     conn = sqlite3.connect(":memory:")
     for st in M.setup_sql(rows):
         conn.execute(st)
+    conn.execute("CREATE TABLE u(x)")
+    conn.execute("INSERT INTO u VALUES (1)")
     exp_cache = {}
     for di, dialect in enumerate(M.DIALECTS):
-        reqs = [{"src": "from t | filter (%s)" % s_, "target": "sql." + dialect, "format": False, "sig": False,
+        reqs = [{"src": wrap(s_), "target": "sql." + dialect, "format": False, "sig": False,
                  "want": ["ReprRq"], "msg_prefix": "verif:preprocess"} for s_ in srcs]
         ans = harness("log", reqs)
         hook_missing = 0
         for k, (t, a) in enumerate(zip(cases, ans)):
-            src = "from t | filter (%s)" % srcs[k]
-            ck.stat("filter", "%s:%s" % (dialect, "compiled" if "ok" in a else "rejected"))
+            src = wrap(srcs[k])
+            ck.stat(S_, "%s:%s" % (dialect, "compiled" if "ok" in a else "rejected"))
             if "ok" not in a:
                 continue
             sql = a["ok"]
             mw = None
-            pre = "SELECT * FROM t WHERE "
             if sql.startswith(pre):
                 mw = sql[len(pre):]
+                if mode == "join":
+                    mw = _re.sub(r"\bt\.([abc])\b", r"\1", mw)
             mk = model[k]
             corner = bool(mk[1]) if mk is not None else False
             per = mk[0][di] if mk is not None and mk[0] else None
             mt = M.codes_text(per[0]) if per is not None else None
             bad = Q.triples_py(per[2]) if per is not None else None
-            case = {"stream": "filter", "dialect": dialect, "src": src, "expr": srcs[k], "sql": sql, "model_sql": mt,
+            case = {"stream": S_, "dialect": dialect, "src": src, "expr": srcs[k], "sql": sql, "model_sql": mt,
                     "kinds": sorted(G.kinds_of(t)), "edges": ["%s/%s/%s" % e for e in G.edges(t)], "bad_triples": bad}
-            ck.count("filter", dialect + "|" + srcs[k], nontrivial=True)
-            # (1) text of the WHERE clause
+            ck.count(S_, dialect + "|" + srcs[k], nontrivial=True)
+            # (1) text of the WHERE / ON clause
             if mt is not None and mw is not None and mt != mw:
                 c2 = dict(case); c2["stream"] = "sqltext"; c2["model"] = mt; c2["impl"] = mw
-                ck.disagreement("WHERE text differs for %r (%s): model %r, implementation %r" % (srcs[k], dialect, mt, mw), c2, classify_text)
+                ck.disagreement("%s condition text differs for %r (%s): model %r, implementation %r" % (mode, srcs[k], dialect, mt, mw), c2, classify_text)
             # (2) RQ of the condition before / after the Normalizer
             names, norm = {}, None
             for en in a.get("entries", []):
@@ -426,12 +441,12 @@ def stream_filter(ck, model_ok):
                 hook_missing += 1
             elif mk is not None:
                 try:
-                    fin = [x for x in norm["in"]["pipeline"] if x.get("kind") == "Filter"]
-                    fout = [x for x in norm["out"]["pipeline"] if x.get("kind") == "Filter"]
+                    fin = [x for x in norm["in"]["pipeline"] if x.get("kind") == kindname]
+                    fout = [x for x in norm["out"]["pipeline"] if x.get("kind") == kindname]
                     if len(fin) == 1 and len(fout) == 1:
                         i_in, i_out = M.rq_text(fin[0]["expr"], names), M.rq_text(fout[0]["expr"], names)
                         m_in, m_out = M.codes_text(("Some", mk[3][0])), M.codes_text(("Some", mk[3][1]))
-                        ck.count("rq", "%s|filter|%s" % (dialect, srcs[k]), nontrivial=True)
+                        ck.count("rq", "%s|%s|%s" % (dialect, mode, srcs[k]), nontrivial=True)
                         ck.stat("rq", "normalizer:" + ("swapped" if i_in != i_out else "identity"))
                         if i_in != m_in:
                             ck.disagreement("RQ of the filter condition differs for %r: model %s, implementation %s" % (srcs[k], m_in, i_in),
@@ -445,7 +460,7 @@ def stream_filter(ck, model_ok):
                     ck.stat("rq", dialect + ":outside-the-hook-view")
             # (3) rows kept
             if corner:
-                ck.stat("filter", "excluded-corner")
+                ck.stat(S_, "excluded-corner")
                 continue
             try:
                 got = conn.execute(sql).fetchall()
@@ -464,10 +479,13 @@ def stream_filter(ck, model_ok):
                         skip.add(env)
                 exp_cache[k] = (keep, skip)
             keep, skip = exp_cache[k]
-            gotn = [tuple(M.obs_val(x) for x in r_) for r_ in got]
+            gotn = [tuple(M.obs_val(x) for x in r_[:3]) for r_ in got]
             gotn = [r_ for r_ in gotn if r_ not in skip]
+            if mode == "join":      # the order of the rows of a join is the planner's business: compare as multisets
+                order = {r_: i for i, r_ in enumerate(rows)}
+                gotn.sort(key=lambda r_: order.get(tuple(None if x is None else (int(x) if x == int(x) else x) for x in r_), -1))
             same_rows = len(gotn) == len(keep) and all(all(M.same(x, y) for x, y in zip(g, e)) for g, e in zip(gotn, keep))
-            ck.stat("filter", dialect + ":rows-compared")
+            ck.stat(S_, dialect + ":rows-compared")
             if not same_rows:
                 gs = set(gotn); ks = set(keep)
                 extra = [r_ for r_ in gotn if r_ not in ks][:1]
@@ -478,7 +496,7 @@ def stream_filter(ck, model_ok):
                 ck.disagreement("rows kept differ for %r (%s): WHERE %s keeps %d rows, the condition is true on %d (kept but not true: %s; true but dropped: %s)" % (
                     src, dialect, mw, len(gotn), len(keep), case["kept_but_not_true"], case["true_but_dropped"]), c2, classify_e2e)
             elif k % 67 == 0:
-                ck.sample({"stream": "filter", "dialect": dialect, "src": src, "sql": sql, "rows_kept": len(gotn)})
+                ck.sample({"stream": S_, "dialect": dialect, "src": src, "sql": sql, "rows_kept": len(gotn)})
         if hook_missing:
             ck.violation("the verif:preprocess hook (pass normalize) is not in this tree: %d compiled filters produced no hook line (fail closed)" % hook_missing,
                          {"kind": "hook-missing", "hook": "verif:preprocess", "programs": hook_missing}, no_input=True)
@@ -626,6 +644,169 @@ def stream_fncall(ck, model_ok, stdsql):
                 ck.stat("fncall", dialect + ":bad-triple-without-witness-row")
             elif k % 53 == 0:
                 ck.sample({"stream": "fncall", "dialect": dialect, "expr": srcs[k], "sql": got[0], "reference": ref})
+    conn.close()
+
+
+# ----------------------------------------------------------------------------- (c') nested calls, date templates
+
+def _nprql(n):
+    k = n[0]
+    if k == "p":
+        s_ = G.prql(n[1])
+        return s_ if n[1][0] == "col" or (n[1][0] == "lit" and not s_.startswith("-")) else "(" + s_ + ")"
+    if k == "str":
+        return '"%s"' % n[1]
+    if k == "call":
+        return "(%s %s)" % (n[1], " ".join(_nprql(a) for a in n[2]))
+    if k == "op":
+        return "(%s %s %s)" % (_nprql(n[2]), G.BIN_TEXT[n[1]], _nprql(n[3]))
+    return "(%s%s)" % ({"Neg": "-", "Not": "!"}[n[1]], _nprql(n[2]))
+
+
+def _ncoq(n):
+    k = n[0]
+    if k == "p":
+        return "(normalize (resolve %s))" % G.coq(n[1])
+    if k == "str":
+        return "(RLit (LStr %s))" % G_codes(n[1])
+    if k == "call":
+        return "(ROp %s [%s])" % (G_codes("std." + n[1]), "; ".join(_ncoq(a) for a in n[2]))
+    if k == "op":
+        return "(ROp (expand_binop B_%s) [%s; %s])" % (n[1], _ncoq(n[2]), _ncoq(n[3]))
+    return "(ROp %s [%s])" % ({"Neg": "n_neg", "Not": "n_not"}[n[1]], _ncoq(n[2]))
+
+
+def nested_cases():
+    a, b, c = (("p", ("col", i)) for i in range(3))
+    I = lambda n: ("p", ("lit", "int", n))
+    P = lambda t: ("p", t)
+    call = lambda nm, *args: ("call", nm, list(args))
+    return [call("math.abs", call("math.round", I(2), b)),
+            ("op", "Add", call("text.length", a), I(1)),
+            call("text.contains", call("text.lower", b), a),
+            ("un", "Neg", call("math.abs", a)),
+            ("op", "Mul", call("math.pow", I(2), a), b),
+            call("math.round", I(1), P(("bin", "DivFloat", ("col", 0), ("col", 1)))),
+            call("text.starts_with", call("text.upper", b), call("text.lower", a)),
+            ("op", "And", call("text.contains", b, a), call("text.ends_with", b, c)),
+            call("math.abs", ("op", "Sub", a, call("math.abs", b))),
+            call("math.pow", call("math.abs", a), P(("bin", "Add", ("col", 1), ("lit", "int", 1)))),
+            ("op", "Mul", call("math.log", I(2), a), b),
+            call("text.replace", call("text.lower", a), b, call("text.upper", c)),
+            ("un", "Not", call("text.contains", b, a)),
+            ("op", "Eq", call("text.length", call("text.trim", a)), call("text.length", b)),
+            call("math.floor", ("op", "Mul", call("math.ceil", a), I(2))),
+            ("op", "Lt", call("text.starts_with", b, a), c),
+            ("op", "Sub", c, ("op", "Sub", call("math.abs", a), call("math.abs", b))),
+            call("text.contains", ("op", "Add", call("text.length", b), I(1)), a),
+            call("text.ends_with", call("text.extract", I(1), I(2), b), ("op", "Or", a, c))]
+
+
+def stream_fncall_nested(ck, model_ok, stdsql):
+    """std function calls nested in each other and under operators (sql.sqlite, sql.generic: text, and the differential
+    oracle against the fully parenthesised reference), and the date templates, which exist only for other dialects
+    (date.to_text on sql.duckdb and sql.mysql with a format both leave as it is: text only; the translation of the
+    format string itself is C08's)."""
+    if not stdsql or "templates" not in stdsql:
+        return
+    import sqlite3
+    from .c02_classify import classify_fncall
+    groups = [(["sqlite", "generic"], nested_cases(), True),
+              (["duckdb", "mysql"], [("call", "date.to_text", [("str", "%Y"), ("p", ch)]) for ch in fn_children()], False)]
+    rows = [(x, y, z) for x in FN_DOMAIN for y in FN_DOMAIN for z in FN_DOMAIN]
+    conn = sqlite3.connect(":memory:")
+    conn.execute("CREATE TABLE t(a, b, c)")
+    conn.executemany("INSERT INTO t VALUES (?, ?, ?)", rows)
+    OPSQL = {"Add": "+", "Sub": "-", "Mul": "*", "Eq": "=", "Lt": "<", "And": "AND", "Or": "OR"}
+    for dialects, cases, execute in groups:
+        srcs = [_nprql(n) for n in cases]
+        model = [None] * len(cases)
+        if model_ok:
+            try:
+                hdr = M.HEADER.replace("Model.EvalDoc", "Model.EvalDoc Model.SqlSem Model.SqlCompat Model.C02Probe Gen.GenExpand")
+                dl = "[" + "; ".join(G_codes(d) for d in dialects) + "]"
+                model = coq_eval_retry(ck, hdr, ["probe_rexpr %s %s" % (dl, _ncoq(n)) for n in cases])
+            except (RuntimeError, ValueError, TypeError) as ex:
+                ck.coverage["nested_model_error"] = str(ex)[-600:]
+                ck.violation("the model could not be evaluated on nested calls", {"kind": "model-evaluation-failed", "error": str(ex)[-600:]}, no_input=True)
+        for di, dialect in enumerate(dialects):
+            tmpl = {}
+            for mod in (dialect, ""):
+                for t in stdsql["templates"]:
+                    if t["module"] == mod and t["name"] not in tmpl:
+                        tmpl[t["name"]] = t
+            comp = M.compile_batch(srcs, dialect)
+            leafsql = {}
+
+            def leaf(t):
+                key = G.prql(t)
+                if key not in leafsql:
+                    r = M.compile_batch([key], dialect)[0]
+                    leafsql[key] = r[0] if r and r[0] not in ("ERR", None) else None
+                return leafsql[key]
+
+            def ref(n):
+                k = n[0]
+                if k == "p":
+                    x = leaf(n[1])
+                    return None if x is None else "(" + x + ")"
+                if k == "str":
+                    return "'" + n[1] + "'"
+                if k == "call":
+                    t = tmpl.get(n[1])
+                    if t is None or t["chunks"] is None:
+                        return None
+                    out = []
+                    for ch in t["chunks"]:
+                        if ch[0] == "text":
+                            out.append(ch[1])
+                        else:
+                            x = ref(n[2][ch[2]])
+                            if x is None:
+                                return None
+                            out.append("(" + x + ")")
+                    return "".join(out)
+                if k == "op":
+                    l_, r_ = ref(n[2]), ref(n[3])
+                    return None if l_ is None or r_ is None or n[1] not in OPSQL else "(%s) %s (%s)" % (l_, OPSQL[n[1]], r_)
+                x = ref(n[2])
+                return None if x is None else "%s(%s)" % ({"Neg": "-", "Not": "NOT "}[n[1]], x)
+            for k, n in enumerate(cases):
+                got = comp[k]
+                ck.stat("fncall-nested", "%s:%s" % (dialect, "rejected" if got[0] == "ERR" else "compiled"))
+                if got[0] in ("ERR", None):
+                    continue
+                mk = model[k][di] if model[k] is not None else None
+                mt = M.codes_text(mk[0]) if mk is not None else None
+                bad = Q.triples_py((mk[1], [])) if mk is not None else None
+                case = {"stream": "fncall-nested", "dialect": dialect, "src": "from t | select {v = %s}" % srcs[k], "sql": got[0], "model_sql": mt, "bad_triples": bad}
+                ck.count("fncall-nested", dialect + "|" + srcs[k], nontrivial=True)
+                if mt is None:
+                    ck.stat("fncall-nested", dialect + ":model-has-no-text")
+                elif mt != got[0]:
+                    c2 = dict(case); c2["stream"] = "sqltext"; c2["model"] = mt; c2["impl"] = got[0]
+                    ck.disagreement("SQL text differs for %r (%s): model %r, implementation %r" % (srcs[k], dialect, mt, got[0]), c2, classify_text)
+                if not execute:
+                    continue
+                rf = ref(n)
+                if rf is None:
+                    ck.stat("fncall-nested", dialect + ":no-reference")
+                    continue
+                case["reference_sql"] = rf
+                try:
+                    r1 = conn.execute("SELECT %s FROM t" % got[0]).fetchall()
+                    r2 = conn.execute("SELECT %s FROM t" % rf).fetchall()
+                except sqlite3.Error:
+                    ck.stat("fncall-nested", dialect + ":not-executable-on-sqlite")
+                    continue
+                ck.stat("fncall-nested", dialect + ":executed")
+                diff = [i for i in range(len(rows)) if r1[i] != r2[i] and not (isinstance(r1[i][0], float) and isinstance(r2[i][0], float) and abs(r1[i][0] - r2[i][0]) <= 1e-9 * max(1.0, abs(r2[i][0])))]
+                if diff:
+                    i = diff[0]
+                    case.update({"row": {"a": rows[i][0], "b": rows[i][1], "c": rows[i][2]}, "observed": repr(r1[i][0]), "expected": repr(r2[i][0]),
+                                 "rows_wrong": len(diff), "rows_compared": len(rows)})
+                    ck.disagreement("the engine regroups %r (%s): `%s` gives %r, the intended `%s` gives %r at %s (%d/%d rows)" % (
+                        srcs[k], dialect, got[0], r1[i][0], rf, r2[i][0], case["row"], len(diff), len(rows)), case, classify_fncall)
     conn.close()
 
 
